@@ -315,9 +315,12 @@ func (f *ObjectLayoutFixer) fixLayout(mapping LayoutMapping, value octosql.Value
 		if mapping.Tuple == nil {
 			return value
 		}
-		out := make([]octosql.Value, len(value.Tuple))
+		// The target tuple may be longer than this value, the missing elements are NULL.
+		out := make([]octosql.Value, len(mapping.Tuple.ElementMapping))
 		for i := range out {
-			out[i] = f.fixLayout(mapping.Tuple.ElementMapping[i], value.Tuple[i])
+			if i < len(value.Tuple) {
+				out[i] = f.fixLayout(mapping.Tuple.ElementMapping[i], value.Tuple[i])
+			}
 		}
 		return octosql.NewTuple(out)
 	default:
@@ -410,7 +413,9 @@ func calculateMapping(targetType, sourceType octosql.Type) LayoutMapping {
 	case octosql.TypeIDTuple:
 		mappings := make([]LayoutMapping, len(targetType.Tuple.Elements))
 		for i := range mappings {
-			mappings[i] = calculateMapping(targetType.Tuple.Elements[i], sourceType.Tuple.Elements[i])
+			if i < len(sourceType.Tuple.Elements) {
+				mappings[i] = calculateMapping(targetType.Tuple.Elements[i], sourceType.Tuple.Elements[i])
+			}
 		}
 		return LayoutMapping{
 			Tuple: &struct{ ElementMapping []LayoutMapping }{ElementMapping: mappings},
